@@ -7,12 +7,12 @@
                            automaton of TTYCommandDecoder (ANY automaton: the theorems quantify over it) and
                            the meaning of SGR sequences as a face transformer (any table)
      wops_run              a client program against TerminalWriter: put_char, put_cell (glyphs, images),
-                           set_face, set_wraps, io::Write::write once per chunk (on the writer itself, through
+                           set_face, set_wraps, set_cursor, io::Write::write once per chunk (on the writer itself, through
                            utf8_writer() and through tty_writer() which also decodes SGR escape
                            sequences), over a view `sh` of a backing slice `data`
      merge_op              the same operation with all its bytes passed in a single call
-     Dead                  the cursor is below the last row of the view (or the view has no column):
-                           nothing can be written any more
+     tty_write / tty_fold  TTYCellWriter::write as coded (one MatcherDecoder::decode per loop iteration,
+                           rescheduled bytes re-parsed lazily by the next decode) / the plain fold over bytes
      text_size             the size Text::layout measures for an available width (before the clamp)
      text_layout           Text::layout: measured size clamped to the constraint
      text_render           Text::render: writer over Layout::apply_to(surface), every cell put
@@ -22,7 +22,7 @@
                            of view / transpose operations: plain, offset, strided, transposed views *)
 From Coq Require Import List Arith Bool NArith ZArith Sorting.Sorted.
 From SNT Require Import Base.Outcome Surface.Bounds Surface.Shape Surface.ShapeProofs
-  Render.CellLayout Render.Writer Render.WriterFrame Render.WriterChunks Render.LayoutFacts Render.LayoutRender
+  Render.CellLayout Render.Writer Render.TokFuel Render.WriterTty Render.WriterFrame Render.WriterChunks Render.LayoutFacts Render.LayoutRender
   Render.TextView Render.C09Main.
 Import ListNotations.
 
@@ -45,24 +45,36 @@ Theorem C09_contained_any_shape : forall (ctx : rctx) (sh : shape) (data : list 
   (InBounds sh (length data) -> exists st' bs, wops_run ctx (writer_new sh data) ops = Ok (st', bs)).
 Proof. exact writer_contained. Qed.
 
-(* (2a) Chunk independence of whole programs: two programs that differ only in how the bytes of
-   each write are split across calls leave the same slice; unless the writer ran out of space they
-   also leave the same writer (cursor, size, face, decoder) and report the same results. *)
+(* (2a) Chunk independence of whole programs: two programs that differ only in how the bytes of each
+   write are split across calls have the same outcome: same slice, same writer (cursor, size, face,
+   decoder), same results of the individual calls.  A caller is modelled as giving up a write
+   operation at the first Err (io::Write does not say how much of a failing buffer was consumed);
+   C09_ignoring_errors_refuted shows that a caller who carries on regardless can observe the split. *)
 Theorem C09_chunking : forall (ctx : rctx) (sh : shape) (data : list ccell) (ops1 ops2 : list wop),
   InBounds sh (length data) -> map merge_op ops1 = map merge_op ops2 ->
-  exists a fa b fb,
-    wops_run ctx (writer_new sh data) ops1 = Ok (a, fa) /\
-    wops_run ctx (writer_new sh data) ops2 = Ok (b, fb) /\
-    w_data a = w_data b /\ (~ Dead a -> a = b /\ fa = fb).
+  wops_run ctx (writer_new sh data) ops1 = wops_run ctx (writer_new sh data) ops2.
 Proof. exact chunking_programs. Qed.
 
-(* (2b) ... from any writer state, in particular with the UTF-8 decoder in the middle of a character *)
+(* (2b) ... for the UTF-8 adapters from any writer state, in particular with the decoder in the middle of
+   a character; no hypothesis on the surface *)
 Theorem C09_chunking_midstream : forall (ctx : rctx) (st : wstate) (chunks1 chunks2 : list (list N)),
-  InBounds (w_sh st) (length (w_data st)) -> concat chunks1 = concat chunks2 ->
-  exists a fa b fb,
-    write_chunks ctx st chunks1 = Ok (a, fa) /\ write_chunks ctx st chunks2 = Ok (b, fb) /\
-    w_data a = w_data b /\ (~ Dead a -> a = b /\ fa = fb).
+  concat chunks1 = concat chunks2 -> write_chunks ctx st chunks1 = write_chunks ctx st chunks2.
 Proof. exact chunking_midstream. Qed.
+
+(* (2c) The escape-sequence adapter.  TTYCellWriter::write is modelled as coded: a loop of
+   MatcherDecoder::decode calls on what is left of the buffer, each call first re-parsing the bytes a
+   previous call rescheduled (only until one of them completes an item), the loop ending when a call
+   yields nothing.  For every automaton, from every tokenizer state between two calls (nothing
+   rescheduled, candidate consistent: TokOk), this computes what the plain fold over the bytes computes;
+   hence a sequence of writes is the fold over the concatenated bytes, tokenizer state included. *)
+Theorem C09_tty_write_is_fold : forall (ctx : rctx) (st : wstate) (ts : tstate) (input : list N),
+  TokOk ts -> tty_write ctx st ts input = tty_fold ctx st ts input.
+Proof. intros ctx st ts input [Hc Hr]. now apply tty_write_fold. Qed.
+
+Theorem C09_tty_chunking : forall (ctx : rctx) (st : wstate) (ts : tstate) (chunks1 chunks2 : list (list N)),
+  InBounds (w_sh st) (length (w_data st)) -> TokOk ts -> concat chunks1 = concat chunks2 ->
+  tty_chunks ctx st ts chunks1 = tty_chunks ctx st ts chunks2.
+Proof. exact tty_chunks_partition. Qed.
 
 (* (3a) No lost cell.  A text without carriage returns, measured for an available width maxw >= 1 and
    written into a surface at least as high as measured and of a width between the measured and the
@@ -90,18 +102,20 @@ Theorem C09_layout_render : forall (ctx : rctx) (cells : list ccell) (wraps : bo
 Proof. exact layout_render. Qed.
 
 (* (3b) The same for Text::layout + Text::render as views: the size reported under a constraint whose
-   height does not cut the text, rendered into any canvas view (plain, offset, strided, transposed)
-   that has room for it. *)
+   height does not cut the text, the layout placed at any position (pr, pc) by its parent, rendered
+   into any canvas view (plain, offset, strided, transposed) in which the reported rectangle lies.
+   rect_view sh pr pc h w is that rectangle of the view.  (A rectangle that sticks out of the view is
+   clipped by Layout::apply_to; then only containment is claimed: C10_leaf_confined.) *)
 Theorem C09_text_view : forall (ctx : rctx) (cells : list ccell) (wraps : bool) (minh minw maxh maxw H W : nat)
-    (sh : shape) (w : window) (data : list ccell),
+    (sh : shape) (w : window) (data : list ccell) (pr pc : nat),
   1 <= maxw -> minh <= maxh -> minw <= maxw -> no_cr ctx cells = true ->
   (Z.of_nat (Nat.max H W) <= i64_max)%Z -> Rep H W sh w -> H * W <= length data ->
   let lay := text_layout ctx cells wraps minh minw maxh maxw in
   fst (text_size ctx cells wraps maxw) <= maxh ->
-  0 < fst lay <= sh_height sh -> 0 < snd lay <= sh_width sh ->
-  exists st', text_render ctx sh data (fst lay) (snd lay) cells wraps = Ok st' /\
+  0 < fst lay -> pr + fst lay <= sh_height sh -> 0 < snd lay -> pc + snd lay <= sh_width sh ->
+  exists st', text_render ctx sh data pr pc (fst lay) (snd lay) cells wraps = Ok st' /\
     Frame sh data (w_data st') /\
-    Appear sh (fst lay) (snd lay) (text_places ctx cells wraps maxw) data (w_data st') /\
+    Appear (rect_view sh pr pc (fst lay) (snd lay)) (fst lay) (snd lay) (text_places ctx cells wraps maxw) data (w_data st') /\
     (wraps = true -> map snd (text_places ctx cells wraps maxw) = printables ctx cells) /\
     (wraps = false ->
        map snd (text_places ctx cells wraps maxw) =
@@ -118,10 +132,7 @@ Check C09_contained : forall (ctx : rctx) (H W : nat) (sh : shape) (w : window) 
       nth_error (w_data st') k = nth_error data k.
 Check C09_chunking : forall (ctx : rctx) (sh : shape) (data : list ccell) (ops1 ops2 : list wop),
   InBounds sh (length data) -> map merge_op ops1 = map merge_op ops2 ->
-  exists a fa b fb,
-    wops_run ctx (writer_new sh data) ops1 = Ok (a, fa) /\
-    wops_run ctx (writer_new sh data) ops2 = Ok (b, fb) /\
-    w_data a = w_data b /\ (~ Dead a -> a = b /\ fa = fb).
+  wops_run ctx (writer_new sh data) ops1 = wops_run ctx (writer_new sh data) ops2.
 Check C09_layout_render : forall (ctx : rctx) (cells : list ccell) (wraps : bool) (maxw : nat) (sh : shape) (data : list ccell),
   1 <= maxw -> no_cr ctx cells = true ->
   fst (text_size ctx cells wraps maxw) <= sh_height sh ->
@@ -198,10 +209,61 @@ Qed.
 Example C09_chunking_nonvacuous :
   InBounds (apply_chain (of_size 5 6) ex_ops) 30 /\
   map merge_op (ex_prog [[97; 226]; [130; 172]]%N) = map merge_op (ex_prog [[97]; [226; 130]; []; [172]]%N) /\
-  ex_prog [[97; 226]; [130; 172]]%N <> ex_prog [[97]; [226; 130]; []; [172]]%N.
+  ex_prog [[97; 226]; [130; 172]]%N <> ex_prog [[97]; [226; 130]; []; [172]]%N /\
+  is_ok (wops_run ex_ctx (writer_new (apply_chain (of_size 5 6) ex_ops) (repeat blank 30))
+                  (ex_prog [[97]; [226; 130]; []; [172]]%N)) = true.
 Proof.
-  split; [|split; [reflexivity|discriminate]].
+  split; [|split; [reflexivity|split; [discriminate|vm_compute; reflexivity]]].
   eapply rep_inbounds with (H := 5) (W := 6); [apply rep_chain; [vm_compute; discriminate|reflexivity|apply rep_root]|auto].
+Qed.
+
+(* the decoder in the middle of "€" (E2 seen): both partitions of the rest complete the character *)
+Example C09_chunking_midstream_nonvacuous :
+  let st := set_dec (writer_new (of_size 1 3) (repeat blank 3)) (mkU 2 [226%N]) in
+  match write_chunks ex_ctx st [[130]; [172; 97]]%N with
+  | Ok (st', ok) => nth_error (kinds (w_data st')) 0 = Some (KChar 8364) /\ ok = true
+  | _ => False
+  end.
+Proof. vm_compute. split; reflexivity. Qed.
+
+(* an escape sequence cut after ESC, inside the parameters and before the final byte, followed by a
+   lone ESC that is rescheduled when the next ESC arrives: the loop as coded and the fold agree *)
+Example C09_tty_nonvacuous :
+  let st := writer_new (of_size 1 4) (repeat blank 4) in
+  let bytes := [27; 91; 49; 109; 99; 27; 27; 91; 109; 100]%N in
+  TokOk (t0 ex_dfa) /\
+  tty_chunks ex_ctx st (t0 ex_dfa) [[27]; [91; 49]; [109; 99; 27]; [27; 91; 109; 100]]%N = tty_fold ex_ctx st (t0 ex_dfa) bytes /\
+  match tty_fold ex_ctx st (t0 ex_dfa) bytes with
+  | Ok (st', ts') => map c_kind (w_data st') = [KChar 99; KChar 100; KChar 32; KChar 32] /\ t_buf ts' = []
+  | _ => False
+  end.
+Proof. vm_compute. repeat split; reflexivity. Qed.
+
+(* a caller that ignores the Err of a write: FF 'b' in one call loses 'b', in two calls writes it *)
+Lemma C09_ignoring_errors_refuted :
+  exists ctx st chunks1 chunks2, concat chunks1 = concat chunks2 /\
+    match write_chunks_ignoring_errors ctx st chunks1, write_chunks_ignoring_errors ctx st chunks2 with
+    | Ok a, Ok b => w_data a <> w_data b
+    | _, _ => False
+    end.
+Proof.
+  exists ex_ctx, (writer_new (of_size 1 2) (repeat blank 2)), [[255; 98]]%N, [[255]; [98]]%N.
+  split; [reflexivity|]. vm_compute. discriminate.
+Qed.
+
+(* a hand-made strided shape over a slice of 12 cells: rows 2 apart ... columns 5 apart *)
+Example C09_contained_any_shape_nonvacuous :
+  let sh := mkShape 1 12 2 2 2 5 in
+  InBounds sh 12 /\
+  match wops_run ex_ctx (writer_new sh (repeat blank 12)) [OChar 97; OChar 98; OChar 99]%N with
+  | Ok (st, _) => map c_kind (w_data st) =
+      [KChar 32; KChar 97; KChar 32; KChar 99; KChar 32; KChar 32; KChar 98; KChar 32; KChar 32; KChar 32; KChar 32; KChar 32]
+  | _ => False
+  end.
+Proof.
+  split; [|vm_compute; reflexivity].
+  intros r c Hr Hc. cbn in *. unfold offset. cbn. destruct r as [|[|r]], c as [|[|c]]; cbn; auto with arith; inversion Hr; inversion Hc;
+    repeat match goal with H : S _ <= _ |- _ => inversion H; clear H end.
 Qed.
 
 (* "ab漢" + glyph (fallback "xyz", no glyph support) + newline + image 2x3 + "c" at width 4:
@@ -219,3 +281,19 @@ Example C09_layout_render_nonvacuous :
   text_size ex_ctx2 ex_cells false 4 = (3, 4) /\
   map fst (text_places ex_ctx2 ex_cells false 4) = [(0, 0); (0, 1); (0, 2); (1, 0); (1, 3)].
 Proof. vm_compute. repeat split; reflexivity. Qed.
+
+(* the same text laid out under min 0x0 / max 9x4 and rendered at position (1, 2) of a 7 x 8 view of a
+   transposed 10 x 9 canvas *)
+Example C09_text_view_nonvacuous :
+  let ops := [OpT; OpView (Rng 1 8) (Rng 1 9)] in
+  let sh := apply_chain (of_size 10 9) ops in
+  text_layout ex_ctx2 ex_cells true 0 0 9 4 = (4, 4) /\
+  Rep 10 9 sh (win_chain (win_root 10 9) ops) /\ sh_height sh = 7 /\ sh_width sh = 8 /\
+  match text_render ex_ctx2 sh (repeat blank 90) 1 2 4 4 ex_cells true with
+  | Ok st => length (filter (fun k => match k with KChar 32 => false | _ => true end) (kinds (w_data st))) = 8
+  | _ => False
+  end.
+Proof.
+  split; [vm_compute; reflexivity|]. split; [apply rep_chain; [vm_compute; discriminate|reflexivity|apply rep_root]|].
+  vm_compute. repeat split; reflexivity.
+Qed.
